@@ -553,3 +553,60 @@ def arch_sources():
             pair.append(write_gen(fn, text))
         out.append((name, pair[0], pair[1]))
     return out
+
+
+# ------------------------------------------------------------------------------------------------
+# C20: member paths of the Visual Studio natvis file, extracted from the XML
+
+def natvis_header():
+    """Returns (path of generated natvis_paths.hpp, dict of extracted expressions)."""
+    import re
+    import xml.etree.ElementTree as ET
+    path = os.path.join(svlib.REPO, "source/support/visualstudio/small_vector.natvis")
+    ns = {"n": "http://schemas.microsoft.com/vstudio/debugger/natvis/2010"}
+    root = ET.parse(path).getroot()
+
+    def member_expr(expr, obj):
+        # every identifier chain in a natvis expression names a member of the visualised object
+        return re.sub(r"(?<![\w.])([A-Za-z_]\w*(?:\.[A-Za-z_]\w*)*)", lambda m: "(%s).%s" % (obj, m.group(1)), expr)
+
+    ex = {}
+    for t in root.findall("n:Type", ns):
+        name = t.get("Name")
+        if name.startswith("gch::small_vector<"):
+            for ds in t.findall("n:DisplayString", ns):
+                cond = ds.get("Condition")
+                txt = ds.text or ""
+                if "inlined" in txt:
+                    ex["NATVIS_INLINED_CONDITION"] = cond
+                elif "allocated" in txt:
+                    ex["NATVIS_ALLOCATED_CONDITION"] = cond
+                m = re.search(r"size=\{([^}]*)\}", txt)
+                if m:
+                    ex.setdefault("NATVIS_DISPLAY_SIZE", m.group(1))
+            expand = t.find("n:Expand", ns)
+            for it in expand.findall("n:Item", ns):
+                if it.get("Name") == "[capacity]":
+                    ex["NATVIS_CAPACITY"] = it.text
+                if it.get("Name") == "[allocator]":
+                    ex["NATVIS_ALLOCATOR"] = it.text
+                    ex["NATVIS_ALLOCATOR_CONDITION"] = it.get("Condition")
+            arr = expand.find("n:ArrayItems", ns)
+            ex["NATVIS_SIZE"] = arr.find("n:Size", ns).text
+            ex["NATVIS_VALUE_POINTER"] = arr.find("n:ValuePointer", ns).text
+        elif name.startswith("gch::small_vector_iterator<"):
+            ds = t.find("n:DisplayString", ns)
+            m = re.search(r"\{([^}]*)\}", ds.text or "")
+            ex["NATVIS_ITER_DISPLAY"] = m.group(1) if m else None
+            for it in t.find("n:Expand", ns).findall("n:Item", ns):
+                if it.get("Name") == "[ptr]":
+                    ex["NATVIS_ITER_PTR"] = it.text
+    lines = ["// generated from source/support/visualstudio/small_vector.natvis", "#pragma once"]
+    need = ["NATVIS_INLINED_CONDITION", "NATVIS_ALLOCATED_CONDITION", "NATVIS_CAPACITY", "NATVIS_ALLOCATOR", "NATVIS_ALLOCATOR_CONDITION",
+            "NATVIS_SIZE", "NATVIS_VALUE_POINTER", "NATVIS_ITER_DISPLAY", "NATVIS_ITER_PTR", "NATVIS_DISPLAY_SIZE"]
+    missing = [k for k in need if not ex.get(k)]
+    for k in need:
+        if ex.get(k):
+            lines.append("#define %s(v) (%s)" % (k, member_expr(ex[k], "v")))
+    text = "\n".join(lines) + "\n"
+    return write_gen("natvis_paths.hpp", text), ex, missing
